@@ -21,7 +21,7 @@ from . import fsx
 from .common import Check, Raw, cN, cZ, cbool, clist, cnat, copt, cpair, cstr
 
 IMPORTS = ("From Coq Require Import List NArith ZArith Bool.\n"
-           "From Verif Require Import Base.Val C18.Fs C18.Model_C18 C18.Spec_C18 C18.Exact_C18.")
+           "From Verif Require Import Base.Val C18.Fs C18.Model_C18 C18.Spec_C18.")
 ANCHORS = ["fs/ops.py::merge_contents", "fs/ops.py::copyfile", "fs/ops.py::do_link", "fs/ops.py::ensure_perms",
            "fs/ops.py::mkdir", "fs/contents.py::change_offset_rewriter", "fs/contents.py::contentsSet.iterdirs",
            "fs/fs.py::fsFile._can_be_hardlinked", "fs/livefs.py::gen_obj"]
